@@ -1,22 +1,8 @@
 """C03 — Parallel stages hand every work item to exactly one worker and then terminate."""
 PROPERTY = "C03"
 LEVEL = "other"
-CONTRACT_MODULES = ["contracts.specfuns", "contracts.lemmas_desc", "contracts.pyramid", "contracts.parallel", "contracts.walk", "contracts.reducer", "contracts.lemmas_embed", "contracts.generator", "contracts.image", "contracts.merge", "contracts.pyramidio", "contracts.study", "contracts.multitan", "contracts.multiwcs", "contracts.toastsample", "contracts.toastgeom", "contracts.toastgen", "contracts.progressc"]
-FUNCTIONS = [
-    "toasty.pyramid.Pyramid.visit_leaves",
-    "toasty.pyramid.Pyramid._visit_leaves_serial",
-    "toasty.pyramid.Pyramid._visit_leaves_parallel",
-    "toasty.pyramid._mp_visit_worker",
-    "toasty.transform._do_a_transform",
-    "toasty.transform._transform_parallel",
-    "toasty.transform._transform_mp_worker",
-    "toasty.multi_tan.MultiTanProcessor._tile_parallel",
-    "toasty.multi_wcs.MultiWcsProcessor._tile_parallel",
-    "toasty.multi_wcs._mp_tile_worker",
-    "toasty.pyramid.Pyramid._generator",
-    "toasty.multi_tan._mp_tile_worker",
-    "toasty.progress.progress_bar",
-]
+CONTRACT_MODULES = ['contracts.specfuns', 'contracts.lemmas_desc', 'contracts.pyramid', 'contracts.parallel', 'contracts.walk', 'contracts.reducer', 'contracts.lemmas_embed', 'contracts.generator', 'contracts.image', 'contracts.merge', 'contracts.pyramidio', 'contracts.study', 'contracts.multitan', 'contracts.multiwcs', 'contracts.toastsample', 'contracts.toastgeom', 'contracts.toastgen', 'contracts.progressc', 'contracts.paths', 'contracts.datarange', 'contracts.builderc']
+FUNCTIONS = ['toasty.pyramid.Pyramid.visit_leaves', 'toasty.pyramid.Pyramid._visit_leaves_serial', 'toasty.pyramid.Pyramid._visit_leaves_parallel', 'toasty.pyramid._mp_visit_worker', 'toasty.transform._do_a_transform', 'toasty.transform._transform_parallel', 'toasty.transform._transform_mp_worker', 'toasty.multi_tan.MultiTanProcessor._tile_parallel', 'toasty.multi_wcs.MultiWcsProcessor._tile_parallel', 'toasty.multi_wcs._mp_tile_worker', 'toasty.pyramid.Pyramid._generator', 'toasty.multi_tan._mp_tile_worker', 'toasty.progress.progress_bar', 'toasty.toast.sample_layer', 'toasty.toast.sample_layer_filtered']
 LEMMAS = []
 SLOW = ()
 TRUSTED_BASE = ["pyvc VC generator; z3/cvc5", "multiprocessing Queue/Event/Process contracts of DESIGN.md 3.4 (rely conditions)"]
